@@ -34,6 +34,18 @@ func dedupQ(qs ...int64) []int64 {
 // role holder or not (DESIGN.md §5 C02).
 func supplyMenu(w *world.World, o menuOpts) []world.Action {
 	var acts []world.Action
+	// a contract burns what it holds (the burn is forwarded to the system contract; the debit must
+	// happen all the same), plain and as an asynchronous call
+	for _, c := range [][]byte{uni.S0} {
+		if h := held(w, c, tF); h > 0 {
+			for _, q := range dedupQ(1, h, h+1) {
+				b := uni.Call(c, uni.ESDT, vmcommon.BuiltInFunctionESDTBurn, uni.F, uni.Big(q))
+				ab := b
+				ab.CallType = vmcommon.AsynchronousCall
+				acts = append(acts, b, ab)
+			}
+		}
+	}
 	for _, a := range users(o) {
 		for _, tok := range [][]byte{uni.F, uni.F1, uni.S} {
 			h := held(w, a, string(tok))
